@@ -12,7 +12,8 @@ RULE = ("cases = six variants x cipher config (block sizes 1..255, widths 1..8) 
 
 def lengths(rng, bs, w, tier):
     base = [bs, bs + 1, 2 * bs - 1, 2 * bs, 2 * bs + 1, 3 * bs, 3 * bs - 1, w * bs, w * bs + 1, (w + 1) * bs,
-            (w + 1) * bs + bs - 1, (2 * w + 2) * bs, rng.randint(bs, 7 * bs)]
+            (w + 1) * bs + bs - 1, (2 * w + 2) * bs, (2 * w + 1) * bs + 1, (3 * w + 1) * bs - 1, rng.randint(bs, 7 * bs),
+            rng.randint(bs, (3 * w + 3) * bs)]
     return [l for l in base if l >= bs]
 
 
